@@ -365,13 +365,34 @@ def taint_flow_check(ctx, items, builder, nexh, nsim, runs=None, prop_what="tain
     else:
         truth, misses = tlc_batches(ctx, ok, "Obs_Back", "Obs_Back.cfg", bt_facts_of, nbatch=8,
                                     timeout=3000 if thorough else 1200, extra_out="illformed.ndjson")
-    nat = native_subset(ctx, ok, misses, 1500 if thorough else 150)
+    # misses attributed to a known finding are confirmed natively only for a few representatives per entry;
+    # every other miss is confirmed natively before it is reported
+    kcount = {}
+    to_confirm = []
+    for m in misses:
+        if m.get("illformed"):
+            continue
+        kid = known_construct(ctx, m["prog"].meta.get("chain"), [m["cfg"]])
+        m["kid"] = kid
+        if kid:
+            kcount.setdefault(kid, set())
+            if len(kcount[kid]) < 3 or m["prog"].idx in kcount[kid]:
+                kcount[kid].add(m["prog"].idx)
+                to_confirm.append(m)
+        else:
+            to_confirm.append(m)
+    unknown_progs = sorted({m["prog"].idx for m in to_confirm if not m.get("kid")})
+    if len(unknown_progs) > 400:
+        keep = set(unknown_progs[:400])
+        to_confirm = [m for m in to_confirm if m.get("kid") or m["prog"].idx in keep]
+    nat = native_subset(ctx, ok, to_confirm, 1500 if thorough else 150)
     native_all(ctx, nat)
     bad = check_model_vs_native(ctx, nat, truth, kinds=(evkind,))
     if bad:
         p, only_model, only_native = bad[0]
         raise Inconclusive("MODEL-MISMATCH: GoSem and the native run disagree on %d programs, e.g. chain %s: "
                            "only in model %s, only natively %s" % (len(bad), p.meta.get("chain"), only_model, only_native))
+    natset = {p.idx for p in nat}
     ctx.traces += sum(len(p.native) for p in nat)
     if os.environ.get("VERIF_DUMP_MISSES"):
         with open(os.environ["VERIF_DUMP_MISSES"], "w") as fh:
@@ -397,13 +418,17 @@ def taint_flow_check(ctx, items, builder, nexh, nsim, runs=None, prop_what="tain
     for (pi, src, sink), ms in sorted(bykey.items()):
         p = ms[0]["prog"]
         bits = bits_of(ms[0]["dec"])
-        run_ = native_script(p, bits)
-        confirmed = any(e["e"] == evkind and e["a"] == src and e["b"] == sink and not e["v"] for e in run_["events"])
-        if not confirmed:
-            raise Inconclusive("MODEL-MISMATCH: witness %s of chain %s not reproduced natively" % (bits, p.meta.get("chain")))
         cfgs = sorted(m["cfg"] for m in ms)
         chain = p.meta.get("chain")
         kid = known_construct(ctx, chain, cfgs)
+        run_ = None
+        if p.idx in natset:
+            run_ = native_script(p, bits)
+            confirmed = any(e["e"] == evkind and e["a"] == src and e["b"] == sink and not e["v"] for e in run_["events"])
+            if not confirmed:
+                raise Inconclusive("MODEL-MISMATCH: witness %s of chain %s not reproduced natively" % (bits, chain))
+        elif not kid:
+            continue   # beyond the confirmation budget: not reported (the reported ones already fail the check)
         if kid:
             ctx.known(kid, "%s (e.g. chain %s, configs %s)" % (ctx.known_entry(kid)["what"], chain, cfgs[:3]))
             continue
